@@ -586,6 +586,11 @@ pub struct TableCase {
     /// if set: a long run of this many user keys with shared prefixes (several restart points per
     /// block; the restart interval is 16), every 5th key with two versions
     pub long_run: Option<usize>,
+    /// if set: (key length, value length) at the boundaries of the variable-length integer coding
+    /// (127/128, 16383/16384): three keys of that length sharing all but the last byte between a
+    /// short first and a short last key; the middle one has two versions, its newest value has the
+    /// given length
+    pub wide: Option<(usize, usize)>,
 }
 
 /// keys of a long run: shared prefixes of varying length, sorted, unique
@@ -624,6 +629,22 @@ pub fn table_entries(c: &TableCase) -> Vec<VerifEntry> {
             }
         }
         return out;
+    }
+    if let Some((kl, vl)) = c.wide {
+        let long = |last: u8| {
+            let mut k = vec![b'k'; kl.saturating_sub(1)];
+            k.push(last);
+            k
+        };
+        let val = |n: usize, salt: usize| -> Vec<u8> { (0..n).map(|j| ((salt * 37 + j * 11 + 5) & 0xff) as u8).collect() };
+        return vec![
+            (b"a".to_vec(), 6, true, val(100, 1)),
+            (long(b'a'), 5, true, val(1, 2)),
+            (long(b'b'), 4, true, val(vl, 3)),
+            (long(b'b'), 3, true, val(100, 4)),
+            (long(b'c'), 2, c.variant == 0, if c.variant == 0 { val(0, 5) } else { vec![] }),
+            (b"z".to_vec(), 1, true, val(vl, 6)),
+        ];
     }
     let ks = table_keys();
     let total: usize = c.patterns.iter().map(|&p| PATTERNS[p].len()).sum();
@@ -686,7 +707,7 @@ pub fn table_case_json(c: &TableCase) -> Value {
     json!({
         "entries": table_entries(c).iter().map(show_entry).collect::<Vec<_>>(),
         "max_block_size": c.block_size,
-        "keys": c.keys, "patterns": c.patterns, "variant": c.variant, "big_values": c.big_values, "sweep_len": c.sweep_len, "long_run": c.long_run,
+        "keys": c.keys, "patterns": c.patterns, "variant": c.variant, "big_values": c.big_values, "sweep_len": c.sweep_len, "long_run": c.long_run, "wide": c.wide.map(|(a, b)| vec![a, b]),
     })
 }
 
@@ -804,7 +825,7 @@ pub fn table_case(c: &TableCase, shm: &Shm, check_filters: bool, cursor_len: usi
     }
     // probes
     let seqs: Vec<u64> = (0..=(entries.len() as u64 + 2)).chain(std::iter::once((1u64 << 56) - 1)).collect();
-    let probes: Vec<Vec<u8>> = if c.long_run.is_some() {
+    let probes: Vec<Vec<u8>> = if c.long_run.is_some() || c.wide.is_some() {
         let mut p: Vec<Vec<u8>> = vec![vec![], b"key".to_vec(), b"kez".to_vec()];
         for e in entries.iter() {
             p.push(e.0.clone());
@@ -818,7 +839,7 @@ pub fn table_case(c: &TableCase, shm: &Shm, check_filters: bool, cursor_len: usi
     } else {
         probe_keys()
     };
-    let seqs: Vec<u64> = if c.long_run.is_some() { vec![0, 1, entries.len() as u64 / 2, entries.len() as u64 + 2, (1u64 << 56) - 1] } else { seqs };
+    let seqs: Vec<u64> = if c.long_run.is_some() || c.wide.is_some() { vec![0, 1, entries.len() as u64 / 2, entries.len() as u64 + 2, (1u64 << 56) - 1] } else { seqs };
     for k in probes {
         for &s in seqs.iter() {
             shm.add(C_USER, 1);
@@ -1005,7 +1026,7 @@ pub fn table_cases(max_keys: usize, block_sizes: &[usize], variants: usize) -> V
                 .collect();
             for &b in block_sizes {
                 for variant in 0..variants {
-                    v.push(TableCase { keys: s.clone(), patterns: pats.clone(), block_size: b, variant, big_values: false, sweep_len: None, long_run: None });
+                    v.push(TableCase { keys: s.clone(), patterns: pats.clone(), block_size: b, variant, big_values: false, sweep_len: None, long_run: None, wide: None });
                 }
             }
         }
@@ -1019,7 +1040,23 @@ pub fn long_run_cases() -> Vec<TableCase> {
     for n in [15usize, 16, 17, 31, 32, 33, 48, 100] {
         for &b in &[64usize, 256, 1024, 1 << 20] {
             for variant in 0..2 {
-                v.push(TableCase { keys: vec![], patterns: vec![], block_size: b, variant, big_values: false, sweep_len: None, long_run: Some(n) });
+                v.push(TableCase { keys: vec![], patterns: vec![], block_size: b, variant, big_values: false, sweep_len: None, long_run: Some(n), wide: None });
+            }
+        }
+    }
+    v
+}
+
+/// keys and values whose lengths sit on the boundaries of the varint coding
+pub fn wide_cases() -> Vec<TableCase> {
+    let mut v = vec![];
+    let lens = [1usize, 126, 127, 128, 129, 255, 256, 16382, 16383, 16384, 16385];
+    for &kl in lens.iter() {
+        for &vl in [0usize, 1, 127, 128, 16383, 16384, 70000].iter() {
+            for &b in &[1usize, 4096, 1 << 20] {
+                for variant in 0..2 {
+                    v.push(TableCase { keys: vec![], patterns: vec![], block_size: b, variant, big_values: false, sweep_len: None, long_run: None, wide: Some((kl, vl)) });
+                }
             }
         }
     }
@@ -1034,7 +1071,7 @@ pub fn filter_table_cases() -> Vec<TableCase> {
         for p in 0..PATTERNS.len() {
             for &b in &[1usize, 16, 2048, 4096, 1 << 20] {
                 for big in [false, true] {
-                    v.push(TableCase { keys: keys.clone(), patterns: keys.iter().map(|_| p).collect(), block_size: b, variant: 0, big_values: big, sweep_len: None, long_run: None });
+                    v.push(TableCase { keys: keys.clone(), patterns: keys.iter().map(|_| p).collect(), block_size: b, variant: 0, big_values: big, sweep_len: None, long_run: None, wide: None });
                 }
             }
         }
@@ -1043,7 +1080,7 @@ pub fn filter_table_cases() -> Vec<TableCase> {
     // offsets of the following blocks take every residue modulo the filter range size
     for l in 1900..=(1900 + 2048 + 200) {
         for &b in &[1usize, 64] {
-            v.push(TableCase { keys: vec![2, 4, 5, 6], patterns: vec![0, 0, 2, 0], block_size: b, variant: 0, big_values: false, sweep_len: Some(l), long_run: None });
+            v.push(TableCase { keys: vec![2, 4, 5, 6], patterns: vec![0, 0, 2, 0], block_size: b, variant: 0, big_values: false, sweep_len: Some(l), long_run: None, wide: None });
         }
     }
     v
